@@ -297,6 +297,15 @@ def _mutseq_check(prop, tier, judge_name):
                         (mu_['k'] == 'Del' and any((ms_.get('fields') or {}).get(mu_['f'], {}).get('ftype') == 'M2M'
                                                    for ms_ in start_sig.values()))
                         for mu_ in seq)
+                if cls == 'mergeable-run-rebuilt-twice':
+                    # a ChangeField of the run is followed, later in the sequence, by a type change of
+                    # the same field: the optimiser folds the two, which moves the (unmergeable) type
+                    # change into the middle of the run
+                    fp18['type_change_folded_into_run'] = any(
+                        a_['k'] == 'Chg' and any(
+                            b_['k'] == 'Chg' and b_['ftype'] != 'None' and b_['m'] == a_['m'] and b_['f'] == a_['f']
+                            for b_ in seq[i_ + 1:])
+                        for i_, a_ in enumerate(seq))
                 report.fail(fp18,
                             {'sequence': label, 'start': rec['start'],
                              'observed': detail, 'abstract_seq': seq})
